@@ -350,6 +350,12 @@ func HarnessC19Prune() {
 		s.AdditionalProperties = &spec.SchemaOrBool{Allows: true}
 	}
 	obj := map[string]interface{}{}
+	if s.AdditionalProperties != nil && s.AdditionalProperties.Schema != nil && verifBool() {
+		// members called id / $schema are members like the others for a schema-valued additionalProperties
+		obj["id"] = 1.0
+		obj["$schema"] = "x"
+		keys = append(keys, "id", "$schema")
+	}
 	if s.Properties != nil && verifBool() {
 		// a described member whose value is null (its schema has no type, so null is valid): it stays
 		s.Properties["n"] = spec.Schema{}
